@@ -15,7 +15,7 @@ namespace Ubx
 
 def special (n : Name) : Bool := n = N.aITOW || n = N.aClsID || n = N.aMsgClass || n = N.aMsgID
 
-def isHPName (n : Name) : Bool := nameLen n ≥ 3 && nameTake n 3 = nmHP
+def isHPName' (n : Name) : Bool := nameLen n ≥ 3 && nameTake n 3 = nmHP
 
 /-- the values `__str__` converts without raising -/
 def okVal (n : AName) (v : PyVal) : Prop :=
@@ -114,10 +114,10 @@ def strTy (n : Name) (ty : Ty) : Bool :=
 /-- the table-level condition on one top-level entry of a definition -/
 def strSafeItem : Item → Bool
   | .attr n ty sc =>
-    if isHPName n then !special (nameDrop n 3)
+    if isHPName' n then !special (nameDrop n 3)
     else if special n then sc == .one && strTy n ty else true
   | .bits n _ flags =>
-    !special n && !(isHPName n && special (nameDrop n 3)) && flags.all (fun f => !special f.1)
+    !special n && !(isHPName' n && special (nameDrop n 3)) && flags.all (fun f => !special f.1)
   | .group _ _ _ => true
 
 def strSafeL : List Item → Bool
@@ -187,7 +187,7 @@ theorem decode_special (n : Name) (ty : Ty) (b : Bytes) (v : PyVal) (k : Nat)
       exact fromLESigned_bounds b (by omega)
 
 theorem storeVal_ok (c : WCtx) (idx : List Nat) (n : Name) (env env' : Env) (v : PyVal) (he : EnvOK env)
-    (hv : idx = [] → (if isHPName n then special (nameDrop n 3) = false else okVal ⟨n, []⟩ v))
+    (hv : idx = [] → (if isHPName' n then special (nameDrop n 3) = false else okVal ⟨n, []⟩ v))
     (h : storeVal c idx n env v = .ok env') : EnvOK env' := by
   unfold storeVal at h
   by_cases hi : idx = []
@@ -195,7 +195,7 @@ theorem storeVal_ok (c : WCtx) (idx : List Nat) (n : Name) (env env' : Env) (v :
     subst hi
     split at h
     · rename_i hc
-      have : isHPName n = true := hc
+      have : isHPName' n = true := hc
       rw [if_pos this] at hv'
       simp only at h
       split at h
@@ -204,7 +204,7 @@ theorem storeVal_ok (c : WCtx) (idx : List Nat) (n : Name) (env env' : Env) (v :
         · cases h
         · exact setAttr_ok c env env' _ _ he (okVal_plain _ _ hv' _) h
     · rename_i hc
-      have : isHPName n = false := by simpa [isHPName] using hc
+      have : isHPName' n = false := by simpa [isHPName'] using hc
       rw [this] at hv'
       simp only [Bool.false_eq_true, if_false] at hv'
       exact setAttr_ok c env env' _ _ he hv' h
@@ -219,7 +219,7 @@ theorem storeVal_ok (c : WCtx) (idx : List Nat) (n : Name) (env env' : Env) (v :
 
 theorem wSingle_ok (c : WCtx) (hp : c.hasPayload = true) (idx : List Nat) (n : Name) (ty : Ty) (sc : Scale)
     (st st' : WState) (he : EnvOK st.env)
-    (hs : idx = [] → (if isHPName n then special (nameDrop n 3) = false
+    (hs : idx = [] → (if isHPName' n then special (nameDrop n 3) = false
                       else (special n = true → sc = .one ∧ strTy n ty = true)))
     (h : wSingle c idx n ty sc st = .ok st') : EnvOK st'.env := by
   unfold wSingle at h
@@ -426,7 +426,7 @@ theorem wItem_ok (c : WCtx) (hp : c.hasPayload = true) (hc : cfgNamesOK c.ctx = 
       exact this
   | .bits n ty flags =>
     simp only [wItem] at h
-    have hs' : idx = [] → special n = false ∧ (isHPName n && special (nameDrop n 3)) = false ∧
+    have hs' : idx = [] → special n = false ∧ (isHPName' n && special (nameDrop n 3)) = false ∧
         flags.all (fun f => !special f.1) = true := by
       intro hi
       have := hs hi
